@@ -141,7 +141,7 @@ func runReplay(a *Adapter, prop, fn, obl, kind string, vals map[string]string, r
 	if err != nil {
 		return false, "adapter template missing: " + err.Error()
 	}
-	scratch, err := os.MkdirTemp("", "govc-replay-")
+	scratch, err := os.MkdirTemp("", ".vc-replay-")
 	if err != nil {
 		return false, err.Error()
 	}
